@@ -30,6 +30,7 @@ class EntropySource:
         self._i = 0
         self.active = None       # set by the executor: name of the API call in progress
         self.by_call = {}        # api-call name -> bytes requested
+        self.exhausted = False
 
     def _uniform(self, n):
         out = b""
@@ -39,9 +40,14 @@ class EntropySource:
             self._ctr += 1
         return out[:n]
 
+    DRAW_CAP = 4096      # a correct sampler (acceptance >= 1/2) never needs this many draws
+
     def __call__(self, n):
         i = self._i
         self._i += 1
+        if i >= self.DRAW_CAP:
+            self.exhausted = True
+            raise EntropyFailure("more than %d draws in one session: the sampler does not terminate" % self.DRAW_CAP)
         m = self.mode
         if m == "fail":
             self.calls.append((n, None))
